@@ -208,7 +208,7 @@ class FakeHid:
                     b[f.spec[2]] ^= 1 << f.spec[3]
                     outs = [bytes(b)]
                 elif kind == "short":
-                    outs = [rep[: max(4, len(rep) - f.spec[2])]]
+                    outs = [rep[: max(4 if len(rep) > 8 else 1, len(rep) - f.spec[2])]]
                 elif kind == "empty":
                     outs = [b""]
             self.idx += 1
@@ -257,6 +257,112 @@ def make_system(transport: str, cfg: dict, faults: list):
         proto = MbootBulkProtocol(ud)
     mb = McuBoot(proto, cmd_exception=cfg.get("cmd_exception", False))
     return dev, link, fake, mb
+
+
+def make_sdp_system(transport: str, cfg: dict, faults: list):
+    from spsdk.sdp.sdp import SDP
+    from vf.ref import sdp_dev as sd
+
+    dev = sd.SdpCore(cfg.get("locked", False), cfg.get("fail_writes", False))
+    if transport == "sdp-serial":
+        from spsdk.sdp.interfaces.uart import SdpUARTInterface
+        from spsdk.utils.interfaces.device.serial_device import SerialDevice
+
+        link = sd.SdpSerialLink(dev)
+        ser = SerialDevice(port=None, timeout=50)
+        fake = FakeSerial(link, faults)
+        ser._device = fake
+        proto = SdpUARTInterface(ser)
+    else:
+        from spsdk.sdp.interfaces.usb import SdpUSBInterface
+        from spsdk.utils.interfaces.device.usb_device import UsbDevice
+
+        link = sd.SdpHidLink(dev)
+        ud = UsbDevice(timeout=50)
+        fake = FakeHid(link, faults)
+        ud._device = fake
+        proto = SdpUSBInterface(ud)
+    host = SDP(proto, cmd_exception=cfg.get("cmd_exception", False))
+    return dev, link, fake, host
+
+
+def is_sdp(transport: str) -> bool:
+    return transport.startswith("sdp")
+
+
+def make_any(transport: str, cfg: dict, faults: list):
+    return make_sdp_system(transport, cfg, faults) if is_sdp(transport) else make_system(transport, cfg, faults)
+
+
+SDP_OPS: list[tuple] = [
+    ("sread", 0, 1), ("sread", 4, 4), ("sread", 0x10, 63), ("sread", 0, 64), ("sread", 8, 65), ("sread", 0x100, 200),
+    ("sread_safe", 0x20, 6, 32), ("sread_safe", 0x21, 4, 32),
+    ("swrite", 0x40, 0x11223344, 4, 32), ("swrite", 0x44, 0xAB, 1, 8), ("swrite_safe", 0x48, 0x1234, 3, 16), ("swrite_safe", 0x49, 1, 4, 32),
+    ("swrite_file", 0x100, 1), ("swrite_file", 0x200, 64), ("swrite_file", 0x300, 1024), ("swrite_file", 0x400, 1500),
+    ("swrite_dcd", 0x80, 40), ("swrite_csf", 0xC0, 24), ("sskip_dcd",), ("sjump", 0x1000), ("sread_status",),
+]
+
+
+def sdp_apply(host, op: tuple) -> Any:
+    k = op[0]
+    if k == "sread":
+        return host.read(op[1], op[2])
+    if k == "sread_safe":
+        return host.read_safe(op[1], op[2], op[3], align_count=True)
+    if k == "swrite":
+        return host.write(op[1], op[2], op[3], op[4])
+    if k == "swrite_safe":
+        return host.write_safe(op[1], op[2], op[3], op[4])
+    if k == "swrite_file":
+        return host.write_file(op[1], pat(op[2], op[1] & 0xFF))
+    if k == "swrite_dcd":
+        return host.write_dcd(op[1], pat(op[2], 1))
+    if k == "swrite_csf":
+        return host.write_csf(op[1], pat(op[2], 2))
+    if k == "sskip_dcd":
+        return host.skip_dcd()
+    if k == "sjump":
+        return host.jump_and_run(op[1])
+    if k == "sread_status":
+        return host.read_status()
+    raise AssertionError(op)
+
+
+def sdp_expected(dev, op: tuple, mem_before: bytes, cfg: dict) -> dict:
+    """What the SDP definition prescribes. status: 0 success, 2 HAB locked, or the failure code of the command."""
+    k = op[0]
+    fw = cfg.get("fail_writes", False)
+    hab = 2 if cfg.get("locked") else 0
+    if k == "sread":
+        return {"status": hab, "ret": mem_before[op[1]:op[1] + op[2]], "effects": [], "ok": True}
+    if k == "sread_safe":
+        if op[1] % (op[3] // 8):
+            return {"status": None, "ret": None, "effects": [], "ok": False, "raises": "SdpError"}
+        n = -(-op[2] // (op[3] // 8)) * (op[3] // 8)
+        return {"status": hab, "ret": mem_before[op[1]:op[1] + n], "effects": [], "ok": True}
+    if k in ("swrite", "swrite_safe"):
+        addr, val, cnt, fmt = op[1], op[2], op[3], op[4]
+        if k == "swrite_safe":
+            if addr % (fmt // 8):
+                return {"status": None, "ret": None, "effects": [], "ok": False, "raises": "SdpError"}
+            if cnt % (fmt // 8):
+                cnt += (fmt // 8) - cnt % (fmt // 8)
+            cnt = min(cnt, 4)
+        if fw:
+            return {"status": 11, "ret": False, "effects": [], "ok": False}
+        return {"status": hab, "ret": True, "effects": [("write_reg", addr, val, cnt)], "ok": True}
+    if k in ("swrite_file", "swrite_dcd", "swrite_csf"):
+        salt = {"swrite_file": op[1] & 0xFF, "swrite_dcd": 1, "swrite_csf": 2}[k]
+        if fw:
+            return {"status": {"swrite_file": 12, "swrite_dcd": 13, "swrite_csf": 14}[k], "ret": False, "effects": [], "ok": False}
+        return {"status": 0, "ret": True, "effects": [("write_" + k[7:], op[1], pat(op[2], salt))], "ok": True}
+    if k == "sskip_dcd":
+        return {"status": hab, "ret": True, "effects": [("skip_dcd",)], "ok": True}
+    if k == "sjump":
+        return {"status": hab, "ret": True, "effects": [("jump", op[1])], "ok": True}
+    if k == "sread_status":
+        return {"status": hab, "ret": 0, "effects": [], "ok": True}
+    raise AssertionError(op)
 
 
 def pat(n: int, salt: int = 0) -> bytes:
@@ -353,12 +459,13 @@ def run_op(dev, mb, op, cfg) -> dict:
     from spsdk.exceptions import SPSDKError
 
     mem_before = bytes(dev.mem)
-    once_before = dict(dev.once)
+    sdp = op[0].startswith("s") and op[0] not in ("set_property", "sb")
+    once_before = dict(dev.once) if not sdp else {}
     n_eff = len(dev.effects)
     n_err = len(dev.errors)
     obs: dict[str, Any] = {}
     try:
-        obs["ret"] = apply_op(mb, op)
+        obs["ret"] = sdp_apply(mb, op) if sdp else apply_op(mb, op)
     except Horizon:
         obs["horizon"] = True
     except (SPSDKError, TimeoutError) as e:
@@ -370,11 +477,49 @@ def run_op(dev, mb, op, cfg) -> dict:
         fr = [f for f in traceback.extract_tb(e.__traceback__) if "/spsdk/" in f.filename]
         obs["site"] = (fr[-1].name if fr else "?")
         obs["undocumented"] = f"{type(e).__name__}: {e} (at {fr[-1].filename.split('/spsdk/')[-1]}:{fr[-1].lineno} {fr[-1].name})" if fr else f"{type(e).__name__}: {e}"
-    obs["status"] = mb.status_code
+    obs["status"] = mb.status_code if not sdp else int(mb.status_code.tag)
     obs["effects"] = [e for e in dev.effects[n_eff:] if e[0] != "read"]
     obs["errors"] = dev.errors[n_err:]
-    obs["exp"] = expected(dev, op, mem_before, once_before, cfg)
+    obs["exp"] = sdp_expected(dev, op, mem_before, cfg) if sdp else expected(dev, op, mem_before, once_before, cfg)
     return obs
+
+
+def judge_clean_sdp(op, obs, transport, cfg) -> list:
+    v = []
+    exp = obs["exp"]
+    tag = f"{transport}:{op[0]}"
+    if obs.get("horizon"):
+        return [("C10.bounded-time", tag, f"{op}: horizon reached without faults")]
+    if obs["errors"]:
+        v.append(("C10.host-protocol-violation", f"{transport}:{obs['errors'][0][:50]}", f"{op}: device model saw {obs['errors'][:3]}"))
+    if "undocumented" in obs:
+        v.append(("C10.undocumented-exception", f"{transport}:{obs['exc']}@{obs.get('site')}", f"{op}: {obs['undocumented']}"))
+        return v
+    if exp.get("raises"):
+        if obs.get("exc") != exp["raises"]:
+            v.append(("C10.result", tag + ":unaligned-not-refused", f"{op}: expected {exp['raises']}, got {obs.get('exc')} / {obs.get('ret')!r:.40}"))
+        if obs["effects"]:
+            v.append(("C10.device-effect", tag + ":on-error", f"{op}: effects {obs['effects']!r:.100}"))
+        return v
+    if "exc" in obs:
+        if exp["ok"] or not (cfg.get("cmd_exception") and obs["exc"] == "SdpCommandError"):
+            v.append(("C10.clean-op-raises", tag + ":" + obs["exc"], f"{op}: raised {obs['exc']}; device outcome ok={exp['ok']}"))
+        return v
+    if obs["status"] != exp["status"]:
+        v.append(("C10.status-mirror", tag, f"{op}: status_code {obs['status']}, the device outcome prescribes {exp['status']}"))
+    if exp["ok"]:
+        if (bytes(obs["ret"]) if isinstance(obs["ret"], (bytes, bytearray)) else obs["ret"]) != exp["ret"]:
+            v.append(("C10.result", tag, f"{op}: returned {obs['ret']!r:.80}, expected {exp['ret']!r:.80}"))
+        if obs["effects"] != exp["effects"]:
+            v.append(("C10.device-effect", tag, f"{op}: effects {obs['effects']!r:.120} expected {exp['effects']!r:.120}"))
+    else:
+        if cfg.get("cmd_exception"):
+            v.append(("C10.error-not-raised", tag, f"{op}: device refused, cmd_exception=True, but no exception; returned {obs['ret']!r:.60}"))
+        if obs["ret"] not in FAILISH:
+            v.append(("C10.error-reported-as-success", tag, f"{op}: device refused, returned {obs['ret']!r:.60}"))
+        if obs["effects"]:
+            v.append(("C10.device-effect", tag + ":on-error", f"{op}: effects {obs['effects']!r:.100}"))
+    return v
 
 
 def judge_clean(op, obs, transport, cfg) -> list:
@@ -420,6 +565,8 @@ def judge_clean(op, obs, transport, cfg) -> list:
 def canon(dev, mb) -> tuple:
     import hashlib
 
+    if not hasattr(dev, "props"):
+        return (hashlib.sha1(bytes(dev.mem)).hexdigest()[:12], int(mb.status_code.tag), mb.hab_status, mb.cmd_status, mb.is_opened)
     return (hashlib.sha1(bytes(dev.mem)).hexdigest()[:12], tuple(sorted((k, tuple(v)) for k, v in dev.props.items())),
             tuple(sorted(dev.once.items())), mb.status_code, mb.max_packet_size, mb.is_opened, len(dev.sb_sink))
 
@@ -435,22 +582,24 @@ def w_bfs(task: dict) -> dict:
 
     def build(hist):
         CLOCK.__init__()
-        dev, link, fake, mb = make_system(transport, cfg, [])
+        dev, link, fake, mb = make_any(transport, cfg, [])
         mb.open()
         for h in hist:
             run_op(dev, mb, h, cfg)
         return dev, link, fake, mb
 
+    ops = SDP_OPS if is_sdp(transport) else OPS
+    judge = judge_clean_sdp if is_sdp(transport) else judge_clean
     dev, link, fake, mb = build(())
     seen[canon(dev, mb)] = ()
     for d in range(1, depth + 1):
         nxt = []
         for hist in frontier:
-            for op in OPS:
+            for op in ops:
                 dev, link, fake, mb = build(hist)
                 obs = run_op(dev, mb, op, cfg)
                 transitions += 1
-                for x in judge_clean(op, obs, transport, cfg):
+                for x in judge(op, obs, transport, cfg):
                     viol.append((x[0], x[1], x[2] + f" | cfg={cfg} history={list(hist)}"))
                 outcomes.add((op[0], obs.get("exc"), obs["status"]))
                 if "horizon" in obs:
@@ -472,16 +621,23 @@ def w_bfs(task: dict) -> dict:
 
 def clean_trace(transport: str, cfg: dict, pre: list, op: tuple) -> dict:
     CLOCK.__init__()
-    dev, link, fake, mb = make_system(transport, cfg, [])
+    dev, link, fake, mb = make_any(transport, cfg, [])
     mb.open()
     for h in pre:
         run_op(dev, mb, h, cfg)
     start = len(link.out)
-    fstart = len(link.frames_sent) if transport == "serial" else 0
+    serial = transport.endswith("serial")
+    fstart = len(link.frames_sent) if serial else 0
     obs = run_op(dev, mb, op, cfg)
-    return {"obs": obs, "start": start, "end": len(link.out), "mem": bytes(dev.mem), "once": dict(dev.once), "sb": dev.sb_sink,
-            "frames": [f for f in link.frames_sent[fstart:]] if transport == "serial" else None,
-            "props": {k: list(v) for k, v in dev.props.items()}}
+    return {"obs": obs, "start": start, "end": len(link.out), "dev": dev_state(dev),
+            "replen": [len(r) for r in link.out[start:]] if not serial else None,
+            "frames": [f for f in link.frames_sent[fstart:]] if serial else None}
+
+
+def dev_state(dev) -> tuple:
+    if hasattr(dev, "props"):
+        return (bytes(dev.mem), tuple(sorted(dev.once.items())), dev.sb_sink, tuple(sorted((k, tuple(v)) for k, v in dev.props.items())))
+    return (bytes(dev.mem), tuple(e for e in dev.effects if e[0] in ("jump", "skip_dcd")))
 
 
 def fault_specs(transport: str, tr: dict, second: bool = False) -> list:
@@ -493,6 +649,27 @@ def fault_specs(transport: str, tr: dict, second: bool = False) -> list:
             out += [["drop", pos], ["truncate", pos], ["insert00", pos], ["pause", pos]]
         for off, kind, ln in tr["frames"]:
             out += [["nak", off], ["abort", off], ["dup", off]]
+    elif transport == "sdp-serial":
+        # the SDP byte stream has no checksum: corruption of *data* bytes is undetectable by any host, so value
+        # faults are injected into the 4-byte HAB/completion words only; loss/timing faults everywhere
+        # (a duplicated word is indistinguishable from data on an unframed stream: not injected)
+        status_bytes = set()
+        for off, kind, ln in tr["frames"]:
+            if kind == "status":
+                status_bytes |= set(range(off, off + ln))
+        for pos in range(tr["start"], tr["end"]):
+            if pos in status_bytes:
+                for b in range(8):
+                    out.append(["flip", pos, b])
+            out += [["drop", pos], ["truncate", pos], ["pause", pos]]
+    elif transport == "sdp-hid":
+        # HID reports have a fixed size: only the 5-byte HAB reports are shortened; report-id flips on every report
+        for idx in range(tr["start"], tr["end"]):
+            out += [["drop", idx], ["truncate", idx], ["empty", idx]]
+            if tr["replen"][idx - tr["start"]] == 5:
+                out += [["short", idx, 1], ["short", idx, 3]]
+            for b in range(8):
+                out.append(["hdrflip", idx, 0, b])
     else:
         for idx in range(tr["start"], tr["end"]):
             out += [["drop", idx], ["truncate", idx], ["abort", idx], ["dup", idx], ["empty", idx], ["short", idx, 1], ["short", idx, 4]]
@@ -514,7 +691,7 @@ def w_fault(task: dict) -> dict:
     for spec in specs:
         faults = spec if spec and isinstance(spec[0], list) else [spec]
         CLOCK.__init__()
-        dev, link, fake, mb = make_system(transport, cfg, faults)
+        dev, link, fake, mb = make_any(transport, cfg, faults)
         mb.open()
         for h in pre:
             run_op(dev, mb, h, cfg)
@@ -533,9 +710,9 @@ def w_fault(task: dict) -> dict:
             outcomes["raised"] = outcomes.get("raised", 0) + 1
             continue
         same_result = obs["ret"] == base["obs"]["ret"] and obs["status"] == base["obs"]["status"]
-        same_device = bytes(dev.mem) == base["mem"] and dev.once == base["once"] and dev.sb_sink == base["sb"] and \
-            {k: list(v) for k, v in dev.props.items()} == base["props"]
-        claims_success = obs["status"] == 0 and obs["ret"] not in FAILISH
+        same_device = dev_state(dev) == base["dev"]
+        # SDP: status 2 ("HAB is locked") is information, not failure, when the fault-free run reports it too
+        claims_success = (obs["status"] == 0 or (is_sdp(transport) and obs["status"] == base["obs"]["status"])) and obs["ret"] not in FAILISH
         if same_result and same_device:
             outcomes["benign"] = outcomes.get("benign", 0) + 1
         elif not claims_success:
@@ -567,6 +744,8 @@ def configs(tier: str) -> list:
 def run(ctx: core.Ctx) -> None:
     depth = 2 if ctx.tier == "quick" else 3
     tasks = [{"transport": t, "cfg": c, "depth": depth} for t in ("serial", "hid") for c in configs(ctx.tier)]
+    sdp_cfgs = [{}, {"locked": True}, {"fail_writes": True}, {"cmd_exception": True}, {"fail_writes": True, "cmd_exception": True}]
+    tasks += [{"transport": t, "cfg": c, "depth": depth} for t in ("sdp-serial", "sdp-hid") for c in sdp_cfgs]
     per = {}
     for case, res in ctx.pool_map(w_bfs, tasks, timeout=1500, chunksize=1, initfn=install_clock, check_det=1):
         if ctx.absorb(case, res):
@@ -589,6 +768,15 @@ def run(ctx: core.Ctx) -> None:
         for c in fcfgs:
             for pre in pres:
                 for op in fault_ops:
+                    ftasks.append({"transport": t, "cfg": c, "pre": [list(p) for p in pre], "op": list(op)})
+    sdp_fault_ops = [op for op in SDP_OPS if op not in (("sread_safe", 0x21, 4, 32), ("swrite_safe", 0x49, 1, 4, 32))]
+    if ctx.tier == "quick":
+        sdp_fault_ops = [("sread", 4, 4), ("sread", 8, 65), ("swrite", 0x40, 0x11223344, 4, 32), ("swrite_file", 0x200, 64), ("swrite_file", 0x400, 1500),
+                         ("swrite_dcd", 0x80, 40), ("sskip_dcd",), ("sjump", 0x1000), ("sread_status",)]
+    for t in ("sdp-serial", "sdp-hid"):
+        for c in ([{}, {"cmd_exception": True}] + ([{"locked": True}] if ctx.tier == "thorough" else [])):
+            for pre in ([[]] if ctx.tier == "quick" else [[], [("swrite_file", 0x100, 1)]]):
+                for op in sdp_fault_ops:
                     ftasks.append({"transport": t, "cfg": c, "pre": [list(p) for p in pre], "op": list(op)})
     fo: dict[str, int] = {}
     for case, res in ctx.pool_map(w_fault, ftasks, timeout=1500, chunksize=1, initfn=install_clock, check_det=1):
@@ -616,7 +804,7 @@ def run(ctx: core.Ctx) -> None:
                 "runs the real McuBoot stack; distinct_nontrivial = canonical states reached")
     ctx.assumptions += ["the reference bootloader in vf/ref/mboot_dev.py is the protocol definition (written from the documented framing and packet layouts)",
                         "USB-HID payload corruption is undetectable by any host (no checksum in the report) and is not injected; header/length/"
-                        "sequence faults are", "SDP/SDPS and the buspal/usbsio/CAN/SDIO device classes are not explored in this version"]
+                        "sequence faults are", "SDP has no checksum at all: value faults are injected into HAB/completion words only, duplicated words/reports are not injected (indistinguishable from data)", "SDPS and the buspal/usbsio/CAN/SDIO device classes are not explored"]
 
 
 def replay(ctx: core.Ctx, rec: dict) -> bool:
